@@ -101,9 +101,7 @@ func (c *Case) Derive() {
 		}
 		name := strings.ToLower(t.Name)
 		sh := shapeTable[fmt.Sprintf("%s|%d", name, t.Qtype)]
-		if qc != int(dns.ClassINET) {
-			sh = Shape{}
-		}
+		// the handler does not look at the class when it searches the answer
 		if !strings.HasSuffix(name, "example.com.") {
 			sh = Shape{Refused: true}
 		}
